@@ -215,6 +215,7 @@ class Xml:
         self.in_prototype = False
         # lexical variant: the E57 namespace bound to a prefix instead of being the default namespace
         self.std_prefix = lex.get("std_prefix")
+        self.leaf_hook = None      # C18: foreign child elements inside standard leaf elements
 
     def q(self, tag):
         if self.std_prefix and ":" not in tag:
@@ -259,8 +260,24 @@ class Xml:
         self.out.append("</%s>" % tag)
 
     def leaf(self, tag, at, text):
+        plain = ":" not in tag
         tag = self.q(tag)
         self.sep()
+        front = behind = ""
+        if plain and not self.in_prototype:
+            if self.leaf_hook is not None:
+                front, behind = self.leaf_hook(tag)
+            elif self.lex.get("ws") == "comments" and self.r.random() < 0.08:
+                # a comment is no part of an element's content, wherever it stands
+                c = "<!-- %s -->" % self.r.choice(["c", "1e9", "</x>", "NaN"])
+                if self.r.random() < 0.5:
+                    front = c
+                else:
+                    behind = c
+                self.used.add("comment-inside-leaf-" + ("front" if front else "behind"))
+        if front or behind:
+            self.out.append("<%s%s>%s%s%s</%s>" % (tag, self.attrs(at), front, text, behind, tag))
+            return
         if text == "" and self.lex["empty"] == "selfclose":
             self.out.append("<%s%s/>" % (tag, self.attrs(at)))
             self.used.add("empty-element-tag")
@@ -384,6 +401,8 @@ def build_xml(scene, offsets, r, lex, hooks=None):
     x = Xml(r, lex)
     if hooks and hooks.get("attrs"):
         x.attr_hook = hooks["attrs"]
+    if hooks and hooks.get("leaf"):
+        x.leaf_hook = hooks["leaf"]
     decl = {"full": '<?xml version="1.0" encoding="UTF-8"?>', "short": "<?xml version='1.0'?>", "standalone": '<?xml version="1.0" encoding="UTF-8" standalone="yes"?>', "none": ""}[lex["decl"]]
     if lex["decl"] != "full":
         x.used.add("xml-declaration:" + lex["decl"])
